@@ -28,9 +28,9 @@ P = {
     "C05": ("proof", "A theorem cannot say 'rustc accepts'. Proved: every internal name chosen by create_unique_identifier is fresh w.r.t. all names in use and is recorded (C05_fresh). "
             "The emitted text is byte-equal to the model's rendering; rustc type-checks the emitted module for adversarial namings (generator-internal names, S, Eof, numeric-suffix neighbours, letterless names) with derive-less payload types. Known finding: zero-variant terminal enum.",
             "§7 C05, §12", "freshness theorem + rustc on adversarial namings"),
-    "C06": ("proof", "Theorem: one public item per nonterminal with the declared name, in declaration order, struct for struct / enum for enum; the parse signature names the start type and the terminal enum (C06_items_and_signature). "
-            "Field-level mirroring (Box<N>, payload types, `_` dropped, pub, unit-like collapse) is checked by reading the emitted text back and comparing with the declaration→Rust mapping of the property, and by byte equality with the model's rendering.",
-            "§7 C06", "structure theorem + reader oracle on emitted text"),
+    "C06": ("proof", "Theorems on the emitted module (structure level): one public item per nonterminal with the declared name, in declaration order, struct for struct / enum for enum; the parse signature names the start type and the terminal enum (C06_items_and_signature); field level (C06_fields): the k-th item mirrors the k-th declaration — a struct's field list and each enum variant's (same variant names, same order) is unit-like when no field is used and otherwise lists exactly the used fields in declaration order, `_` fields omitted, named fields under their names, typed Box<N> for a nonterminal N and with the terminal's declared payload type for a terminal. "
+            "The text (pub, punctuation, layout) is the rendering of that structure: checked by byte equality with the model's rendering on every generated grammar and by reading the emitted text back (strict reader of Rust item syntax) and comparing with the declaration→Rust mapping of the property.",
+            "§7 C06", "module-structure theorems (items, signature, fields) + strict read-back of the emitted text"),
     "C07": ("proof", "Proved, stage by stage, for every input: the tokenizer never panics on any text (it equals the total scanner specification: C08_tokenize_total); the front-end parser never panics on any token list (C09_parse_correct) and cst_to_ast is total on every CST it returns (C07_cst_to_ast_total); validation has no panicking path (C07_validate_no_panic); once the grammar is coded, validated_ast_to_machine never hits a FIRST-map unwrap or index_map[i] failure and machine_to_table never hits rules[i], get_shift_dest(..).unwrap(), the 'Impossible: goto conflict' or a table index out of range (C07_generator_no_panic, from the generator invariants); and validated_ast_to_machine terminates with a machine for every coded grammar — explicit bound genFuel: FIRST fixpoint ≤ nN·(nT+1) changing passes, closures bounded by the number of well-formed items, worklist bounded by a potential ≤ 2^C·(U+1) since no two states share a core — after which machine_to_table returns a table or a genuine conflict (C07_generator_total). "
             "Partial: termination of the emitted driver on non-sentences, Encode/text-emission unwraps after validation (get_type, unique names) and the parse-error slice are covered by the correspondence only: every stage runs under catch_unwind with a watchdog (and generate() in child processes) on valid, mutated, malformed and size-bound inputs; the model's panics are explicit (Res.panic at every unwrap/slice/index site) and its outcome class is compared.",
             "§7 C07", "per-stage no-panic theorems + catch_unwind/watchdog correspondence"),
